@@ -31,6 +31,10 @@ fn toks_str(toks: &[usize]) -> String {
 }
 
 impl Emit<'_> {
+    pub fn line(&mut self, l: &str) {
+        writeln!(self.out, "{l}").unwrap();
+    }
+
     pub fn grammar_header(&mut self, gid: &str, kind: &str, src: &str, lang: &Lang, terms: Option<&[Term]>, optable: Option<&OpTable>, exh: usize) {
         let g: Value = serde_json::from_str(&lang.built.grammar_json).unwrap();
         writeln!(self.out, "grammar {gid} {kind}").unwrap();
@@ -86,6 +90,11 @@ fn explore_token_grammar(em: &mut Emit, cu: &mut CUnit, rng: &mut Rng, gid: &str
         Ok(l) => l,
         Err(e) => {
             stats.rejected_by_generator += 1;
+            if let Some(t) = optable {
+                // the Lean driver decides whether the table's conflicts are all resolved by its precedences
+                em.line(&format!("rejected {gid} {}", t.encode()));
+                em.line(&format!("src {src}"));
+            }
             if std::env::var("C03_VERBOSE").is_ok() {
                 eprintln!("{gid}: generator/cc rejected: {}", e.lines().next().unwrap_or(""));
             }
@@ -109,6 +118,55 @@ fn explore_token_grammar(em: &mut Emit, cu: &mut CUnit, rng: &mut Rng, gid: &str
         em.case(&format!("{gid}-e{n}"), &mut parser, &text, Some(toks));
         n += 1;
     });
+    // operator tables: every chain of two and three binary operators and every operator next to a
+    // prefix / postfix operator (the strings on which precedence and associativity decide the tree),
+    // whatever the exhaustive bound is
+    if let Some(t) = optable {
+        let idx = |text: &str| terms.iter().position(|x| x.text == text && !x.named);
+        if let Some(num) = terms.iter().position(|x| x.named && x.name == "num") {
+            let mut bins: Vec<usize> = Vec::new();
+            for b in &t.bin {
+                if let Some(i) = idx(&b.0) {
+                    if !bins.contains(&i) {
+                        bins.push(i);
+                    }
+                }
+            }
+            let uns: Vec<usize> = t.un.iter().filter_map(|u| idx(&u.0)).collect();
+            let posts: Vec<usize> = t.post.iter().filter_map(|u| idx(&u.0)).collect();
+            let mut combos: Vec<Vec<usize>> = Vec::new();
+            for &a in &bins {
+                for &b in &bins {
+                    combos.push(vec![num, a, num, b, num]);
+                    if bins.len() <= 5 {
+                        for &c in &bins {
+                            combos.push(vec![num, a, num, b, num, c, num]);
+                        }
+                    }
+                }
+                for &u in &uns {
+                    combos.push(vec![u, num, a, num]);
+                    combos.push(vec![num, a, u, num, a, num]);
+                }
+                for &q in &posts {
+                    combos.push(vec![num, a, num, q]);
+                    combos.push(vec![num, q, a, num]);
+                    for &u in &uns {
+                        combos.push(vec![u, num, a, num, q]);
+                    }
+                }
+            }
+            for &u in &uns {
+                for &q in &posts {
+                    combos.push(vec![u, num, q]);
+                }
+            }
+            for (k, toks) in combos.iter().enumerate() {
+                let text = render(&terms, toks);
+                em.case(&format!("{gid}-o{k}"), &mut parser, &text, Some(toks));
+            }
+        }
+    }
     // random derivations and their mutations
     let gg = gen::GrammarGen::new(json, None);
     let by_text: HashMap<String, usize> = terms.iter().enumerate().map(|(i, t)| (t.text.clone(), i)).collect();
